@@ -152,11 +152,12 @@ Definition sketch_on (st : store) (rq : request) : bool :=
      if !sketch_candidates.is_empty() {
        candidate_filter = match candidate_filter {
          Some(existing) => { let filtered = existing ∩ sketch_set;
-                             if filtered.is_empty() { Some(sketch_set) }   // "Fall back to sketch-only"
+                             if filtered.is_empty() { Some(existing) }   // drop the pre-filter, keep the hard filters
                              else { Some(filtered) } }
          None => Some(sketch_set) } } }
-   fx = false: the code as it is.  fx = true: the repaired code, which returns the
-   empty response (site 7) where the original falls back to the sketch set. *)
+   fx = true: the code as it is now (commit d76304f).  fx = false: the code before that
+   commit, which fell back to `Some(sketch_set)` in the empty-intersection branch
+   ("Fall back to sketch-only if intersection is empty"), kept for the historical lemmas. *)
 Definition sketch_stage_gen (fx : bool) (st : store) (rq : request) (cands : list N)
            (cf : option (list N)) : stage :=
   if sketch_on st rq then
@@ -164,7 +165,7 @@ Definition sketch_stage_gen (fx : bool) (st : store) (rq : request) (cands : lis
     else match cf with
          | Some existing =>
              let filtered := keep_in cands existing in
-             if is_nil filtered then (if fx then Exit 7 else Cont (Some cands))
+             if is_nil filtered then (if fx then Cont (Some existing) else Cont (Some cands))
              else Cont (Some filtered)
          | None => Cont (Some cands)
          end
@@ -179,8 +180,9 @@ Definition pre_sketch (st : store) (rq : request) : stage :=
 Definition candidate_filter_gen (fx : bool) (st : store) (rq : request) (cands : list N) : stage :=
   bind (pre_sketch st rq) (sketch_stage_gen fx st rq cands).
 
-Definition candidate_filter := candidate_filter_gen false.
-Definition candidate_filter_fixed := candidate_filter_gen true.
+(* the code as it is / the code before d76304f *)
+Definition candidate_filter := candidate_filter_gen true.
+Definition candidate_filter_old := candidate_filter_gen false.
 
 (* the hits (frame ids) of Memvid::search: nothing on an early exit, otherwise what
    the engine returns for the final candidate filter *)
@@ -191,8 +193,8 @@ Definition search_ids_gen (fx : bool) (engine : option (list N) -> list N)
   | Cont cf => engine cf
   end.
 
-Definition search_ids := search_ids_gen false.
-Definition search_ids_fixed := search_ids_gen true.
+Definition search_ids := search_ids_gen true.
+Definition search_ids_old := search_ids_gen false.
 
 (* the same request without the time-travel parameters *)
 Definition drop_as_of (rq : request) : request :=
@@ -215,11 +217,12 @@ Definition cut_le_Z (c c' : option Z) : bool :=
   | Some t' => match c with Some t => (t <=? t')%Z | None => false end
   end.
 
-(* ---- the class of the known finding F-C11-1 -----------------------------
-   The sketch stage runs with a non-empty candidate set, and the filter built so
-   far (date range ∩ temporal ∩ replay; never empty at this point) has no member in
-   the sketch set: the code then REPLACES the filter by the sketch set. *)
-Definition known_fallback (st : store) (rq : request) (cands : list N) : bool :=
+(* ---- the empty-intersection branch of the sketch stage -----------------------
+   The sketch stage runs with a non-empty candidate set, and the filter built so far
+   (date range ∩ temporal ∩ replay; never empty at this point) has no member in the
+   sketch set.  The code before d76304f REPLACED the filter by the sketch set here
+   (fixed finding F-C11-1); the current code keeps the filter and drops the sketch. *)
+Definition sketch_disjoint (st : store) (rq : request) (cands : list N) : bool :=
   match pre_sketch st rq with
   | Cont (Some existing) =>
       sketch_on st rq && negb (is_nil cands) && is_nil (keep_in cands existing)
